@@ -1,6 +1,12 @@
 import GqlVerif.Props.C17
+import GqlVerif.Proofs.C02Closure
 open GqlVerif.C17
 #print axioms search_guarded_eq
 #print axioms search_guarded_total
 #print axioms search_unguarded_diverges
 #print axioms search_guarded_on_cycle
+-- the fuel the model hands to the code-generation walks is never exhausted (Proofs/C02Closure.lean)
+#print axioms GqlVerif.C02.walkFuel_sufficient
+#print axioms GqlVerif.C02.responseItems_fuel_sufficient
+#print axioms GqlVerif.C02.fragmentItems_fuel_sufficient
+#print axioms GqlVerif.C02.responseForQuery_fuel
